@@ -67,7 +67,10 @@ _SIG_REF = {"list_ann_param": "lp", "list_ann_ret": "lr", "list_ann_field": "lf"
             "list_ann_nested_sig": "lns", "list_ann_generic_arg": "lg", "list_ann_callable": "lc"}
 UNGATED = {"none"}
 CONTEXTS = ("top", "in_if", "in_else", "in_while", "in_for", "in_nested_fn", "in_nested_fn_under_if",
-            "in_nested_fn_under_for", "in_nested_nested_fn", "in_callee", "in_method")
+            "in_nested_fn_under_for", "in_nested_nested_fn", "in_callee", "in_method",
+            # struct methods that are first reached through a pure *probe* (iterable unpacking
+            # looks for __iter__, callable(x) for __call__) and only then used
+            "in_iter_method_unpacked", "in_call_method_probed")
 
 # the "fault": an ordinary mistake, by the pipeline stage at which it is reported
 FAULTS = {
@@ -81,7 +84,8 @@ FAULTS = {
 }
 POSITIONS = ("before", "after", "inside")
 
-MOD_PRELUDE = "dagger = object()\ncontrol = object()\npower = object()\n\n"
+MOD_PRELUDE = ("from guppylang.std.builtins import Range, SizedIter, callable\n"
+               "dagger = object()\ncontrol = object()\npower = object()\n\n")
 
 
 def indent(lines, n):
@@ -141,13 +145,24 @@ def program(kind: str, ctx: str, fault=None) -> str:
     elif ctx == "in_nested_nested_fn":
         lines = ["def outerw(a: int) -> int:", "    def wrap(a: int) -> int:"] + indent(body, 8) + \
             ["        return a", "    return wrap(a)", "w = outerw(a)"]
-    elif ctx in ("in_callee", "in_method"):
+    elif ctx in ("in_callee", "in_method", "in_iter_method_unpacked", "in_call_method_probed"):
         lines = None
     else:
         raise ValueError(ctx)
     if ctx == "in_callee":
         src += "@guppy\ndef callee(a: int) -> int:\n" + "\n".join(indent(body, 4)) + "\n    return a\n\n"
         src += "@guppy\ndef main(a: int) -> int:\n    return callee(a)\n"
+    elif ctx == "in_iter_method_unpacked":
+        src += ("@guppy.struct\nclass SI:\n    f: int\n\n    @guppy\n"
+                "    def __iter__(self: \"SI\") -> SizedIter[Range, 2]:\n        a = self.f\n"
+                + "\n".join(indent(body, 8)) + "\n        return range(2)\n\n")
+        src += "@guppy\ndef main(a: int) -> int:\n    ux, uy = SI(a)\n    return a\n"
+    elif ctx == "in_call_method_probed":
+        src += ("@guppy.struct\nclass SC:\n    f: int\n\n    @guppy\n"
+                "    def __call__(self: \"SC\", a: int) -> int:\n"
+                + "\n".join(indent(body, 8)) + "\n        return a + self.f\n\n")
+        src += ("@guppy\ndef main(a: int) -> int:\n    g = SC(1)\n    if callable(g):\n"
+                "        return g.__call__(a)\n    return a\n")
     elif ctx == "in_method":
         src += ("@guppy.struct\nclass S:\n    f: int\n\n    @guppy\n    def meth(self: \"S\", a: int) -> int:\n"
                 + "\n".join(indent(body, 8)) + "\n        return a + self.f\n\n")
